@@ -308,6 +308,11 @@ impl MarkdownEventsReader {
                             // <me@example.com> is a mail address, not the name of a note
                             url: match link_type {
                                 LinkType::Email => format!("mailto:{}", dest_url),
+                                // "[[note\|text]]" in a table cell: the backslash escapes the
+                                // pipe for the table and is no part of the name
+                                LinkType::WikiLink { has_pothole: true } => {
+                                    dest_url.trim_end_matches('\\').to_string()
+                                }
                                 _ => dest_url.to_string(),
                             },
                             title: title.to_string(),
